@@ -571,11 +571,13 @@ class GotWantException(AssertionError):
                     got = utils.color_text(got, 'red')
                     want = utils.color_text(want, 'red')
                 text = 'Expected:\n{}\nGot nothing\n'.format(utils.indent(want))
-            elif got:  # nocover
-                raise AssertionError('impossible state')
+            elif got:
+                # The want normalizes to nothing (e.g. it only consists of
+                # <BLANKLINE> markers), but something was written.
+                if colored:
+                    got = utils.color_text(got, 'red')
                 text = 'Expected nothing\nGot:\n{}'.format(utils.indent(got))
-            else:  # nocover
-                raise AssertionError('impossible state')
+            else:
                 text = 'Expected nothing\nGot nothing\n'
         return text
 
